@@ -204,7 +204,7 @@ static void init() {
   for (auto& fi : g_funcs) {
     int n = fi.nargs < 0 ? -fi.nargs - 1 : fi.nargs;
     fi.is_int.assign(n, false);
-    if (fi.type == FUNCADD_STRING_VALUED) continue;
+    if (fi.type == FUNCADD_STRING_VALUED || getenv("GSL_NO_PROBE")) continue;      // GSL_NO_PROBE: keep the library untouched before the first judged call
     for (int i = 0; i < n; ++i)
       for (double base : {2.0, 1.0, 3.0, 0.0, 5.0}) {
         std::vector<double> a(n, base); a[i] = base + 0.5;
